@@ -164,6 +164,12 @@ func genC01(g *Gen) {
 	g.setMode(0)
 	g.addGrid(0.4)
 	g.pairGrid(0.2, func(x, y d128.Decimal) { g.someModes(g.addSubOp(), x, y, 2) })
+	g.vanishGrid(0.1, func(x, y d128.Decimal) {
+		if g.r.Intn(2) == 0 {
+			x, y = y, x
+		}
+		g.someModes(g.addSubOp(), x, y, 2)
+	})
 	for !g.w.full() {
 		switch g.r.Intn(11) {
 		case 11:
